@@ -209,8 +209,50 @@ type ncase struct {
 }
 
 // checkNatPair: range, antisymmetry, zero iff canonically equal, numeric order.
+// numericExpect applies the clause "orders embedded digit runs by numeric
+// value": when a and b are p+r1+q and p+r2+q with r1, r2 maximal digit runs
+// (p not ending in a digit), the result is the sign of r1-r2 as numbers. Runs
+// of more than 18 significant digits are left alone (the property excludes
+// runs that overflow int).
+func numericExpect(a, b string) (want int, ok bool) {
+	isD := func(c byte) bool { return c >= '0' && c <= '9' }
+	i := 0
+	for i < len(a) && i < len(b) && a[i] == b[i] {
+		i++
+	}
+	for i > 0 && isD(a[i-1]) { // back to the start of a run that the common prefix cuts
+		i--
+	}
+	ea, eb := i, i
+	for ea < len(a) && isD(a[ea]) {
+		ea++
+	}
+	for eb < len(b) && isD(b[eb]) {
+		eb++
+	}
+	if ea == i || eb == i || a[ea:] != b[eb:] {
+		return 0, false
+	}
+	ra, rb := strings.TrimLeft(a[i:ea], "0"), strings.TrimLeft(b[i:eb], "0")
+	if len(ra) > 18 || len(rb) > 18 {
+		return 0, false
+	}
+	switch {
+	case len(ra) != len(rb):
+		return sign(len(ra) - len(rb)), true
+	case ra < rb:
+		return -1, true
+	case ra > rb:
+		return 1, true
+	}
+	return 0, true
+}
+
 func checkNatPair(a, b string) *mc.Failure {
 	ab, ba := mstr.CompareNatural(a, b), mstr.CompareNatural(b, a)
+	if want, ok := numericExpect(a, b); ok && ab != want {
+		return mc.Failf(0, "CompareNatural(%q,%q)=%d, but the strings differ only in one digit run and the runs compare %d as numbers", a, b, ab, want)
+	}
 	if ab < -1 || ab > 1 {
 		return mc.Failf(0, "CompareNatural(%q,%q)=%d is outside {-1,0,1}", a, b, ab)
 	}
@@ -444,6 +486,26 @@ func main() {
 								if g := mstr.CompareNatural(p+r1+q, p+r2+q); g != sign(vals[i]-vals[j]) {
 									c := ncase{A: p + r1 + q, B: p + r2 + q}
 									r.Violation(mc.Case{Harness: "natural", Trace: mc.J(c), Msg: fmt.Sprintf("CompareNatural(%q,%q)=%d, digit runs %d vs %d", c.A, c.B, g, vals[i], vals[j])})
+								}
+							}
+						}
+					}
+				}
+				// long digit runs (up to 18 significant digits: within int, beyond int32 and float64 precision)
+				nums := []string{"0", "7", "32767", "32768", "65535", "65536", "2147483647", "2147483648", "4294967295", "4294967296",
+					"9007199254740992", "9007199254740993", "99999999999999999", "100000000000000000", "999999999999999999", "999999999999999998"}
+				var longRuns []string
+				for _, x := range nums {
+					longRuns = append(longRuns, x, "000"+x)
+				}
+				for _, p := range []string{"", "a", "v1.", "x9/"} {
+					for _, q := range []string{"", "b", ".5", "/7x"} {
+						for _, r1 := range longRuns {
+							for _, r2 := range longRuns {
+								numeric++
+								c := ncase{A: p + r1 + q, B: p + r2 + q}
+								if f := mc.GuardT("natural", c, func() *mc.Failure { return checkNatPair(c.A, c.B) }); f != nil {
+									r.Violation(mc.Case{Harness: "natural", Trace: mc.J(c), Msg: f.Msg})
 								}
 							}
 						}
